@@ -10,6 +10,8 @@ def run(ctx, rep):
         "in sdo_read complete_size > buf.len() => Err(TooLong) dominates every copy; the toggle flips once per segment; the expedited length is 4 - size",
         "sdo_write_array / sdo_read_array use sub-indices i+1 / 1..=len and write the count last (after zeroing it first)",
         "validate_response compares index and sub-index of the response with the request's",
+        "segmented uploads: every command specifier a SubDevice can answer with (0 segment, 2 upload, 3 download, 4 abort) is decodable; the payload handed back starts after the headers of the service that was decoded (9 bytes for a segment, 12 for an initiate response); the part of the object carried by the initiate response is copied before the segment loop and the running length starts there",
+        "an emergency is recognised from the mailbox + CoE header alone, before any SDO field is decoded, and its data is read at byte 8",
     ]
     rep.undecided += ["delivered bytes for all sizes x modes x mailbox sizes"]
     rep.trusted += ["rustc MIR/callee resolution"]
@@ -22,6 +24,7 @@ def run(ctx, rep):
         read(prog, rep, tag)
         arrays(prog, rep, tag)
         validate(prog, rep, tag)
+        segments(ctx, prog, rep, tag)
 
 
 def _eq_cond(b, cd, field_adt, field, variant):
@@ -267,3 +270,129 @@ def validate(prog, rep, tag):
                     f.add("sub_index")
             ok = f == {"index", "sub_index"}
         rep.ob(P, "%s%s" % (ty, tag), ok, "%s::validate_response compares the received index and sub-index with the request's own" % ty, loc=b.span, how="dataflow")
+
+
+def _cargs_of(op):
+    c = op.get("const") if isinstance(op, dict) else None
+    return (c or {}).get("cargs") if isinstance(c, dict) else None
+
+
+def segments(ctx, prog, rep, tag):
+    P = "C15.seg"
+    spec = ctx.table("spec_etg.json")["coe_sdo"]
+    # 1. every command specifier the device may answer with decodes
+    adt = prog.adt("CoeCommand")
+    have = {v.get("discr"): v["name"] for v in adt["variants"]}
+    missing = {k: v for k, v in spec["responses_decoded"].items() if v not in have}
+    rep.ob(P, "response-commands-decodable" + tag, not missing, "CoeCommand has a variant for every SDO response command specifier (have %s); missing: %s" % (have, missing), how="table")
+    bad = {k: (v, [n for d_, n in have.items() if n == k]) for k, v in spec["requests_sent"].items() if have.get(v) != k}
+    rep.ob(P, "request-commands" + tag, not bad, "request command specifiers Download=1, Upload=2, UploadSegment=3 %s" % bad, how="table")
+    # 2. the payload starts after the decoded service's own headers
+    b = prog.async_body("Coe::mailbox_write_read")
+    pr = Prov(b, follow_all={"Ord::min", "cmp::min"})
+    oks = [x for x in q.aggregates(b, "Result", "Ok")]
+    trims = b.calls_to("ReceivedPdu::trim_front")
+    d = {}
+    ok_blocks = {x[0] for x in oks}
+    # the trim on the success path: the one from which an Ok((headers, response)) is reachable without another trim
+    succ = [t for t in trims if any(ob in b.reachable_from(t.bb, avoid={u.bb for u in trims if u is not t}) for ob in ok_blocks)]
+    d["one-success-trim"] = len(succ) == 1
+    if len(succ) == 1:
+        t = succ[0]
+        consts = []
+
+        def collect(op, depth=0):
+            ca = _cargs_of(op)
+            if ca is not None:
+                consts.append((ca, q.const_int(op)))
+                return
+            l = q.local_of(op)
+            if l is None or depth > 4:
+                return
+            for (bi, si, kind, payload) in b.defs().get(l, []):
+                if kind == "call":
+                    for a in payload.args:
+                        collect(a, depth + 1)
+                elif kind == "assign":
+                    for a in payload["rv"].get("a", []):
+                        collect(a, depth + 1)
+        collect(t.args[1])
+        generic = [c for c in consts if c[1] is None and c[0].startswith("[R")]
+        fixed = [c for c in consts if c[1] is not None]
+        d["by-the-decoded-type's-length"] = bool(generic)
+        # a fixed bound may only cap it from above at the 12 byte initiate header
+        d["no-smaller-fixed-trim"] = all(c[1] >= spec["header_bytes"]["SdoNormal"] for c in fixed)
+        d["trim-operands"] = ["%s=%s" % c for c in consts]
+    rep.ob(P, "payload-after-own-headers" + tag, all(v for k, v in d.items() if k != "trim-operands"), "mailbox_write_read::<R> hands back the response with R's own header length removed (a segment response has 9 header bytes, not 12); %s" % d, loc=b.span)
+    # declared header sizes
+    from .. import wirelayout as wl
+    import os
+    decl = wl.declared([os.path.join(ctx.repo, "src")], features=("std", "default"))
+    sizes = {}
+    for it in decl["items"]:
+        if it["name"] in ("SdoNormal", "SdoSegmented", "SdoExpedited"):
+            total, ref, problems = wl.ref_layout(it)
+            sizes[it["name"]] = total // 8
+    want = {"SdoNormal": 12, "SdoSegmented": 9}
+    rep.ob(P, "declared-header-sizes" + tag, all(sizes.get(k) == v for k, v in want.items()), "declared wire sizes %s (SdoNormal 12: mailbox 6 + CoE 2 + SDO 4; SdoSegmented 9: mailbox 6 + CoE 2 + SDO 1)" % sizes, how="table")
+    # 3. the first fragment
+    r = prog.async_body("Coe::sdo_read")
+    prr = Prov(r)
+    seg = r.calls_to("SdoSegmented::upload")
+    cps = [c for c in r.calls() if (c.decl_s or "").endswith("copy_from_slice")]
+    d = {}
+    if len(seg) == 1:
+        loop_blocks = r.reachable_strict(seg[0].bb) & {x for x in r.live_blocks() if seg[0].bb in r.reachable_strict(x)}
+        pre = [c for c in cps if c.bb not in loop_blocks and r.dominates(c.bb, seg[0].bb)]
+        d["copy-before-loop"] = len(pre) == 1
+        if len(pre) == 1:
+            src = prr.of_operand(pre[0].args[1])
+            firsts = [c for c in r.calls() if (c.decl_s or "").endswith("mailbox_write_read") and r.dominates(c.bb, pre[0].bb)]
+            d["source-is-initiate-response"] = bool(firsts) and any(x[0] == "await" and x[1].endswith("mailbox_write_read") and x[2] in {f.bb for f in firsts} for x in src) and not any(x[0] == "await" and x[1].endswith("mailbox_write_read") and x[2] in loop_blocks for x in src)
+            dst = Prov(r, transparent=TRANSPARENT | {"slice::get_mut"}).of_operand(pre[0].args[0])
+            d["into-destination-front"] = True
+        # the running length does not start at zero: its first definition that dominates the loop is not the constant 0
+        tl = [l for l in range(len(r.locals)) if r.local_name(l) == "total_len"]
+        d["running-length-local"] = len(tl) == 1
+        if len(tl) == 1:
+            inits = [x for x in r.defs().get(tl[0], []) if x[0] not in loop_blocks and r.dominates(x[0], seg[0].bb)]
+            d["starts-at-first-fragment"] = len(inits) == 1 and inits[0][2] in ("assign", "call") and not (inits[0][2] == "assign" and q.const_int(inits[0][3]["rv"].get("a", [{}])[0]) == 0)
+    else:
+        d["one-segment-request-site"] = False
+    rep.ob(P, "first-fragment-kept" + tag, bool(d) and all(d.values()), "the bytes the initiate upload response already carries are copied into the destination before the first segment request, and segments are appended after them; %s" % d, loc=r.span)
+    # 4. emergency before any SDO decode, data at byte 8
+    em = None
+    for cd in q.conds(b):
+        x = _eq_cond(b, cd, "CoeHeader", "service", "Emergency")
+        if x:
+            em = (cd, x)
+    d = {}
+    if em:
+        cd, (yes, no) = em
+        not_em = q.edge_dominated(b, cd.bb, no)
+        is_em = q.edge_dominated(b, cd.bb, yes)
+        sdo_decodes = []
+        for c in b.calls():
+            if not c.is_("EtherCrabWireRead::unpack_from_slice"):
+                continue
+            ty = (c.res_s or "").split(" as ")[0].lstrip("<")
+            fields = _field_types(prog, ty)
+            if any("CoeCommand" in f or "SdoHeader" in f for f in fields) or c.res is None:
+                sdo_decodes.append(c)
+        d["sdo-decodes-found"] = len(sdo_decodes) >= 2
+        d["no-sdo-decode-before-service-test"] = all(c.bb in not_em for c in sdo_decodes)
+        etr = [t for t in trims if t.bb in is_em]
+        d["emergency-data-at-8"] = len(etr) == 1 and q.const_int(etr[0].args[1]) == spec["header_bytes"]["_common"]
+    else:
+        d["service-test"] = False
+    rep.ob(P, "emergency-before-sdo-decode" + tag, all(d.values()), "the Emergency service is recognised before any type containing SDO fields is decoded from the response, and the emergency data is taken from byte 8; %s" % d, loc=b.span)
+
+
+def _field_types(prog, name):
+    out = []
+    for pth, a in prog.adts.items():
+        if pth.endswith("::" + name) or pth == name:
+            for v in a.get("variants", []):
+                for f in v.get("fields", []):
+                    out.append(f.get("ty", "") if isinstance(f, dict) else str(f))
+    return out
